@@ -28,18 +28,39 @@ static LOG: OnceLock<Log> = OnceLock::new();
 static NEW_BY_THREAD: OnceLock<Mutex<HashMap<u64, usize>>> = OnceLock::new();
 static EVENT_COUNT: AtomicU64 = AtomicU64::new(0);
 
+/// The hook identifies a market by the address of its shared state, and a new market may reuse
+/// the address of a dead one - possibly while the case that owned the dead one has not collected
+/// its log yet. Logs are therefore kept under a *unique id* given out at each `New` event:
+/// `ADDR_TO_UID[address]` is the market currently living at that address (all events of a market
+/// precede the `New` of its successor at the same address, because a market's last broker emits
+/// its `Drop` event before the memory is released).
+static ADDR_TO_UID: OnceLock<Mutex<HashMap<usize, usize>>> = OnceLock::new();
+static UID_TO_ADDR: OnceLock<Mutex<HashMap<usize, usize>>> = OnceLock::new();
+static NEXT_UID: AtomicU64 = AtomicU64::new(1);
+
 pub fn install_sink() {
     LOG.get_or_init(|| Mutex::new(HashMap::new()));
     NEW_BY_THREAD.get_or_init(|| Mutex::new(HashMap::new()));
+    ADDR_TO_UID.get_or_init(|| Mutex::new(HashMap::new()));
+    UID_TO_ADDR.get_or_init(|| Mutex::new(HashMap::new()));
     verif::set_sink(Some(Arc::new(|e: MarketEvent| {
         EVENT_COUNT.fetch_add(1, Ordering::Relaxed);
-        if let K::New { .. } = e.kind {
-            NEW_BY_THREAD.get().unwrap().lock().unwrap().insert(e.thread, e.market);
-            // a new market may reuse the address of a dead one
-            LOG.get().unwrap().lock().unwrap().insert(e.market, Vec::new());
-        }
-        LOG.get().unwrap().lock().unwrap().entry(e.market).or_default().push((e.thread, e.kind));
+        let uid = if let K::New { .. } = e.kind {
+            let uid = NEXT_UID.fetch_add(1, Ordering::Relaxed) as usize;
+            ADDR_TO_UID.get().unwrap().lock().unwrap().insert(e.market, uid);
+            UID_TO_ADDR.get().unwrap().lock().unwrap().insert(uid, e.market);
+            NEW_BY_THREAD.get().unwrap().lock().unwrap().insert(e.thread, uid);
+            uid
+        } else {
+            ADDR_TO_UID.get().unwrap().lock().unwrap().get(&e.market).copied().unwrap_or(0)
+        };
+        LOG.get().unwrap().lock().unwrap().entry(uid).or_default().push((e.thread, e.kind));
     })));
+}
+
+/// The address the hook knows this market by (for snapshots).
+fn addr_of(market: usize) -> Option<usize> {
+    UID_TO_ADDR.get()?.lock().unwrap().get(&market).copied()
 }
 
 /// The market most recently created by the calling thread.
@@ -48,6 +69,9 @@ pub fn my_market() -> Option<usize> {
 }
 
 pub fn take_events(market: usize) -> Vec<(u64, K)> {
+    if let Some(m) = UID_TO_ADDR.get() {
+        m.lock().unwrap().remove(&market);
+    }
     LOG.get().unwrap().lock().unwrap().remove(&market).unwrap_or_default()
 }
 
@@ -392,7 +416,7 @@ pub fn diagnose_hang(market: Option<usize>) -> (Option<String>, Value) {
     let mut pictures = Vec::new();
     let mut counts = Vec::new();
     for _ in 0..3 {
-        let snap = market.and_then(|m| verif::market_snapshots().into_iter().find(|(id, _)| *id == m).map(|(_, s)| s));
+        let snap = market.and_then(addr_of).and_then(|m| verif::market_snapshots().into_iter().find(|(id, _)| *id == m).map(|(_, s)| s));
         pictures.push(format!("{:?}", snap));
         // silence of *this* market (other cases running in parallel keep the global counter busy)
         counts.push(market.map(market_event_count).unwrap_or_else(|| EVENT_COUNT.load(Ordering::Relaxed)));
@@ -404,7 +428,7 @@ pub fn diagnose_hang(market: Option<usize>) -> (Option<String>, Value) {
     if !stable {
         return (None, evidence);
     }
-    let snap = market.and_then(|m| verif::market_snapshots().into_iter().find(|(id, _)| *id == m).map(|(_, s)| s));
+    let snap = market.and_then(addr_of).and_then(|m| verif::market_snapshots().into_iter().find(|(id, _)| *id == m).map(|(_, s)| s));
     let class = match snap {
         Some(Ok(s)) => {
             // workers parked in `pop` according to the event log (waits without a wake-up)
